@@ -73,16 +73,18 @@ type TStep struct {
 // ConnPlan is one peer connection: what the peer does and how the handler
 // treats the connection.
 type ConnPlan struct {
-	Peer      []PeerOp `json:"peer"`
-	OpenReply int      `json:"open_reply,omitempty"` // bytes returned from OnOpen (0: nil)
-	OpenAct   int      `json:"open_act,omitempty"`
-	OpenW     []WOp    `json:"open_w,omitempty"` // writes issued inside OnOpen
-	Traffic   []TStep  `json:"traffic,omitempty"`
-	CloseAct  int      `json:"close_act,omitempty"` // action returned by OnClose
-	Start     int      `json:"start,omitempty"`     // decisions to wait before connecting
-	AddrOf    int      `json:"addr_of,omitempty"`   // 1+index of an earlier peer whose source address this peer re-uses
-	UDP       bool     `json:"udp,omitempty"`       // (client mode) a connected UDP socket
-	Dial      bool     `json:"dial,omitempty"`      // the connection is created by Engine.Register / Enroll from a user task
+	Peer       []PeerOp `json:"peer"`
+	OpenReply  int      `json:"open_reply,omitempty"` // bytes returned from OnOpen (0: nil)
+	OpenAct    int      `json:"open_act,omitempty"`
+	OpenW      []WOp    `json:"open_w,omitempty"` // writes issued inside OnOpen
+	Traffic    []TStep  `json:"traffic,omitempty"`
+	CloseAct   int      `json:"close_act,omitempty"`   // action returned by OnClose
+	CloseW     []WOp    `json:"close_w,omitempty"`     // writes issued inside OnClose (a parting message; delivery is best effort)
+	CloseAgain int      `json:"close_again,omitempty"` // inside OnClose: 1 EventLoop.Close(c), 2 c.Close() (must be no-ops)
+	Start      int      `json:"start,omitempty"`       // decisions to wait before connecting
+	AddrOf     int      `json:"addr_of,omitempty"`     // 1+index of an earlier peer whose source address this peer re-uses
+	UDP        bool     `json:"udp,omitempty"`         // (client mode) a connected UDP socket
+	Dial       bool     `json:"dial,omitempty"`        // the connection is created by Engine.Register / Enroll from a user task
 }
 
 // UserOp is one call made by an application goroutine outside the loops.
